@@ -2,6 +2,8 @@
 # MANIFEST entry point:  ./run.sh <Cxx> quick|thorough   |   ./run.sh --replay <path>
 cd "$(dirname "$0")" || exit 2
 export CARGO_NET_OFFLINE=true
+# a solver process that needs more than this is reported as undecided, never as a pass
+ulimit -v 24000000 2>/dev/null
 if [ "$1" = "--replay" ]; then
   exec python3 driver/verif.py replay "$2"
 fi
